@@ -109,11 +109,43 @@ func (p *printRec) ViolationFP(k, fp, w string, _ any) {
 	}
 }
 
+func replayDecodeHistory(path string) {
+	b, err := os.ReadFile(path)
+	if err != nil {
+		return
+	}
+	var f struct {
+		Key     string `json:"key"`
+		Witness struct {
+			DH *dhScenario `json:"decode_history"`
+		} `json:"witness"`
+	}
+	if json.Unmarshal(b, &f) != nil || f.Witness.DH == nil {
+		return
+	}
+	rec := &printRec{want: f.Key}
+	if f.Witness.DH.Canon { // the canonical history is the first thing the process decodes
+		runDecodeHistory(rec, f.Witness.DH)
+	} else {
+		for _, a := range []string{"gcn3", "cdna3"} { // what ran before it in the real run
+			runDecodeHistory(&printRec{}, &dhScenario{Name: "warm-up", Seed: 0xD0C0DE, Arch: a, Canon: true, N: 160})
+		}
+		runDecodeHistory(rec, f.Witness.DH)
+	}
+	if rec.hit {
+		fmt.Printf("[C07] replay of %s: reproduced key %s\n", path, f.Key)
+		os.Exit(1)
+	}
+	fmt.Printf("[C07] replay of %s: key %s NOT reproduced (%d other deviations)\n", path, f.Key, rec.n)
+	os.Exit(0)
+}
+
 func main() {
 	log.SetOutput(io.Discard) // log.Panicf of the code under test prints before panicking; the panic value is what we keep
-	cat, err := buildCatalogue()
 	for i, a := range os.Args {
 		if a == "--replay" && i+1 < len(os.Args) {
+			replayDecodeHistory(os.Args[i+1]) // returns if the replay is of another layer
+			cat, err := buildCatalogue()
 			if err != nil {
 				fmt.Println("catalogue:", err)
 				os.Exit(2)
@@ -122,6 +154,30 @@ func main() {
 		}
 	}
 	c := vlib.Start("C07")
+	// decode-history layer (dechist.go): first, sequentially, before this process has decoded anything else
+	dhs := decodeHistoryScenarios(c)
+	dhFired := false
+	if os.Getenv("C07_SKIP_DECHIST") == "" {
+		for _, sc := range dhs {
+			dhFired = runDecodeHistory(c, sc) || dhFired
+		}
+	}
+	cat, err := buildCatalogue()
+	seenCh := map[string]bool{}
+	for _, ch := range cat.changes {
+		key := "C07|decode|operand-changed-after-later-decode|" + ch.od.Name
+		var w any
+		if !seenCh[key] {
+			seenCh[key] = true
+			w = map[string]any{"operand": ch.od.String(), "change": ch.change, "changed_by_decode_of": ch.culprit}
+		}
+		c.Violation(key, fmt.Sprintf("operand catalogue: %s, harvested with RegCount %d, changed (%s) when %s was decoded later on the same decoder: the operand object is shared between instructions",
+			ch.od.String(), ch.od.RC, ch.change, ch.culprit), w)
+	}
+	if len(cat.changes) > 0 || dhFired {
+		// operands change under the register stores' feet: the histories below would only repeat this in many shapes
+		c.Finish(vlib.FinishOpts{Rule: "decode-history layer only: the decoder's operand objects are not stable (see the violations); the remaining layers were not run"})
+	}
 	if err != nil {
 		c.Inconclusive("operand harvest failed (the decoder did not yield the intended operand): " + err.Error())
 		c.Finish(vlib.FinishOpts{Rule: "n/a"})
@@ -221,6 +277,9 @@ func main() {
 			"flat_load_dword x1..x4, s_mov, v_mov, s_cmp, v_readfirstlane, ds_read -- are put into Wavefront.InstToIssue and executed by the real scheduler/units/load-return handlers, " +
 			"mixed with accessor reads/writes, register-file writes made with the exact calls of handleScalarDataLoadReturn/handleVectorDataLoadReturn and hand-made s_load answers " +
 			"delivered to ToScalarMem), every read compared with a shadow array of cells; non-trivial = history with at least one 'read X, non-accessor write of X, read X again' and one load answer handled by the real compute unit; " +
+			"decode-history layer (runs first, sequentially): case = instruction stream decoded on a long-lived decoder per architecture (64-bit uses of vcc/exec/SGPR pairs before and after 32-bit uses of their halves, " +
+			"constants between them) and executed by the real ALUs on both stores; the expected cells of every access come from the encoding (ISA width), not from the operand object; every operand object is snapshotted at decode and re-compared after every later decode; " +
+			"non-trivial = stream without deviation; " +
 			"chase layer: case = generated straight-line kernel (pointer chasing through one SGPR/VGPR pair, SGPR operand re-read around a load return) run in the timing compute unit, " +
 			"the emulation compute unit and the host interpreter, on GCN3 and on CDNA3 (cdna3.ALU + CDNA3 decoding + register scoreboard), plus ds_write2_b32/_b64 kernels with distinct DATA0/DATA1 read back through ds_read_b32; " +
 			"non-trivial = kernel whose three register dumps agree",
@@ -231,6 +290,7 @@ func main() {
 			"timing register files are observed raw through SimpleRegisterFile.Read with register s0/v0, lane 0 and the byte address as wave offset",
 			"path-mixing layer: the compute unit receives in-order answers per memory port (fake FIFO memories); one instruction per wavefront is in flight at a time and the engine runs idle before the shadow is advanced; " +
 				"scalar loads use 4-byte aligned addresses below 2^40 (the synthetic memory makes every aligned pair a valid pointer); the ISA semantics of the handful of injected instructions are re-implemented on the host (pmisa.go)",
+			"decode-history layer: widths and semantics of s_mov_b32/b64, s_and_b32/b64, s_cmp_eq_u32, s_movk_i32, v_cmp_eq_u32 (e32/e64) are taken from the ISA manual; emulation's 64-bit answer for a RegCount-0 vcc_lo source (listed finding) is masked to 32 bits and vcc_lo is not used as a source of s_and/s_cmp there",
 			"chase layer: registers a kernel never writes are zero at wavefront start in both modes; the kernels use s0..s17, v0..v16, one wavefront per work-group, 1..4 co-resident work-groups",
 			"release layer: live wavefronts are observed through raw reads of cu.SRegFile/cu.VRegFile at tracer callbacks (instruction start/end) and through the sums they dump to memory; a window that is not cleared at release is counted, not judged",
 		},
@@ -250,6 +310,9 @@ func main() {
 			"pm.reads_verified": int64(len(pms)) * int64(pmSteps), "pm.sweeps": int64(2 * len(pms)),
 			"chase.kernels_run": int64(len(chases)), "chase.loads_overwriting_their_address_registers": int64(3 * len(chases)),
 			"chase.dump_dwords_compared": int64(1000 * len(chases)), "chase.lds_write2_kernels.gcn3": 8, "chase.lds_write2_kernels.cdna3": 8,
+			"dh.histories": int64(len(dhs)), "dh.instructions_decoded": int64(150 * len(dhs)), "dh.instructions_executed": int64(300 * len(dhs)),
+			"dh.operand_objects_rechecked": int64(20000 * len(dhs)), "dh.half_accesses_after_64bit_decode": int64(40 * len(dhs)),
+			"dh.direct_operand_reads": int64(200 * len(dhs)), "dh.same_encoding_redecoded": int64(5 * len(dhs)),
 			"pm.ds_writes_checked": int64(len(pms)), "pm.held_read_results_rechecked": int64(len(pms)) * int64(pmSteps),
 			"held_read_results_rechecked": minOps * 20, "held_read_results_alive_at_end": int64(n) * int64(nOps) / 10, "read_results_overwritten_by_caller": minOps / 40,
 			"release.dumps_judged": int64(5 * len(rels)), "release.slots_reused": int64(len(rels)), "release.wavefronts_ended_at_once": int64(4 * len(rels)),
